@@ -588,7 +588,7 @@ def signature_of(clause, detail, cfg, ex):
 
 
 def run_c07(ctx, rec):
-    explore(ctx, rec, "C07", {"p_fault": 0.15, "p_cancel": 0.0, "pool_timeout": None}, 30, 400, ["C07:"])
-    explore(ctx, rec, "C07", {"p_fault": 0.1, "p_cancel": 0.12, "pool_timeout": None, "gate_close": True, "p_conn_close": 0.4}, 60, 800, ["C07:"])
+    explore(ctx, rec, "C07", {"p_fault": 0.15, "p_cancel": 0.0, "pool_timeout": None}, 30, 4000, ["C07:"])
+    explore(ctx, rec, "C07", {"p_fault": 0.1, "p_cancel": 0.12, "pool_timeout": None, "gate_close": True, "p_conn_close": 0.4}, 60, 8000, ["C07:"])
     explore(ctx, rec, "C07", {"p_fault": 0.05, "p_cancel": 0.05, "pool_timeout": 4.0, "gate_close": True, "p_conn_close": 0.4,
-                              "max_connections": 1}, 60, 800, ["C07:"])
+                              "max_connections": 1}, 60, 8000, ["C07:"])
